@@ -52,7 +52,7 @@ def gen_sort_exhaustive(rng, tier):
                     ops.append(('search_int %d ' % ALPHA_INT[t] + xi).strip())
                     ops.append(('search_glob %d ' % ALPHA_GLOB[t] + ' '.join(str(ALPHA_GLOB[k]) for k in tup)).strip())
             # -0.0 and 0.0 compare equal: the dbl alphabet order is non-strict at letters 2,3
-            if nondecr:
+            if nondecr or n <= 4:
                 xd = ' '.join(hexd(ALPHA_DBL[k]) for k in tup)
                 for t in list(range(7)) + [None]:
                     ops.append(('search_dbl %s ' % (NAN if t is None else hexd(ALPHA_DBL[t])) + xd).strip())
@@ -115,7 +115,7 @@ def oracle_sort(ops, impl):
                     elif rw[0] != 'not_found' or pos != -1:
                         bad.append((i, '%s: absent target must give not_found -1: %s -> %s' % (op, o, r)))
             elif op == 'search_dbl':
-                if r == 'unsorted':
+                if r == 'nan-list':
                     continue
                 t, x = unhex(w[1]), [unhex(v) for v in w[2:]]
                 n = len(x)
@@ -200,6 +200,8 @@ def gen_sort_random(rng, tier):
             for t in sorted(targets)[:8]:
                 ops.append(('search_glob %d ' % (t * 2 ** 31) + ' '.join(str(v * 2 ** 31) for v in s)).strip())
             sd = sorted(float(v) / 3.0 for v in x)
+            if r % 4 == 1:      # NaN-free but unsorted: the loop still ends in a bracket (proved over a linear order)
+                rng.shuffle(sd)
             sds = ' '.join(hexd(v) for v in sd)
             for t in sorted(targets)[:10]:
                 ops.append(('search_dbl %s ' % hexd(float(t) / 3.0) + sds).strip())
@@ -590,7 +592,7 @@ def _check_adump(line, m):
 
 
 def _nontrivial(op, out):
-    return out not in ('bad-op', 'ok', 'unsorted')
+    return out not in ('bad-op', 'ok', 'nan-list')
 
 
 SORT_EXH = Stream('cont_sort_exhaustive', 'h_containers', 'containers', gen_sort_exhaustive, oracle=oracle_sort,
